@@ -315,8 +315,8 @@ def _jwe_ops(op, alg, enc, has_zip, zipname, allow, via_registry, v0, v1):
         return False
     if prims and not (spec_jwe("alg", alg, allow) and spec_jwe("enc", enc, allow)):
         return False                     # a cryptographic primitive was used although alg or enc is not allowed
-    if not returned and not ok and not isinstance(exc, (UnsupportedAlgorithmError, ValueError)):
-        return False
+    if not returned and not ok and not isinstance(exc, (JoseError, ValueError)):
+        return False                     # (another defect of the token may be reported first; it must still be a library error)
     return True
 
 
@@ -419,7 +419,7 @@ def replay(func, call):
         except Exception as e:  # noqa
             returned, exc = False, e
         ok = spec_jwe("alg", alg, allow) and spec_jwe("enc", enc, allow) and (not has_zip or spec_jwe("zip", zipname, allow))
-        bad = (returned and not ok) or (not returned and not ok and not isinstance(exc, (UnsupportedAlgorithmError, ValueError)))
+        bad = (returned and not ok) or (not returned and not ok and not isinstance(exc, (JoseError, ValueError)))
         return {"violated": bool(bad), "key": "c05-jwe-op", "detail": "op=%d alg=%r enc=%r zip=%r allow=%r -> %s" %
                 (op, alg, enc, zipname if has_zip else None, allow, "returned" if returned else type(exc).__name__)}
     if func.startswith("jws_op_"):
